@@ -552,7 +552,7 @@ pub fn template(name: &str, probe: Segs) -> Option<Segs> {
 }
 
 pub fn probe_segs(p: &Probe) -> Option<Segs> {
-    let body = nest(&p.kind, p.n as usize)?;
+    let body = if p.kind == "len-self" { vec![] } else { nest(&p.kind, p.n as usize)? };
     if p.host.is_empty() {
         return Some(body);
     }
@@ -561,6 +561,15 @@ pub fn probe_segs(p: &Probe) -> Option<Segs> {
     }
     let s = pool().get(&p.host)?;
     let tree = s.tree()?;
+    if p.kind == "len-self" {
+        // the slot-th container / string of the seed keeps its content but declares 2^n elements
+        let mut heads = vec![];
+        collect_heads(tree, &s.bytes, &mut heads);
+        let (at, hl, major) = *heads.get(p.slot as usize)?;
+        let mut h = vec![(major << 5) | 27];
+        h.extend((1u64 << p.n.min(63)).to_be_bytes());
+        return Some(vec![one(&s.bytes[..at]), one(&h), one(&s.bytes[at + hl..])]);
+    }
     let mut nodes = vec![];
     collect(tree, &mut nodes);
     let node = nodes[pick_idx(p.slot, nodes.len())];
@@ -576,6 +585,40 @@ pub fn probe_segs(p: &Probe) -> Option<Segs> {
 
 pub fn probe_bytes(p: &Probe) -> Option<Vec<u8>> {
     probe_segs(p).map(|s| segs_bytes(&s))
+}
+
+/// (offset, head length, major type) of every definite-length array / map / byte / text string
+fn collect_heads(n: &cborx::Node, src: &[u8], out: &mut Vec<(usize, usize, u8)>) {
+    let hl = |at: usize| match src[at] & 31 {
+        0..=23 => 1,
+        24 => 2,
+        25 => 3,
+        26 => 5,
+        27 => 9,
+        _ => 0,
+    };
+    match &n.k {
+        cborx::Kind::Array(v, cborx::Len::Def(_)) => {
+            out.push((n.s, hl(n.s), 4));
+            v.iter().for_each(|c| collect_heads(c, src, out));
+        }
+        cborx::Kind::Map(v, cborx::Len::Def(_)) => {
+            out.push((n.s, hl(n.s), 5));
+            v.iter().for_each(|(a, b)| {
+                collect_heads(a, src, out);
+                collect_heads(b, src, out)
+            });
+        }
+        cborx::Kind::Array(v, _) => v.iter().for_each(|c| collect_heads(c, src, out)),
+        cborx::Kind::Map(v, _) => v.iter().for_each(|(a, b)| {
+            collect_heads(a, src, out);
+            collect_heads(b, src, out)
+        }),
+        cborx::Kind::Tag(_, _, i) => collect_heads(i, src, out),
+        cborx::Kind::Bytes(cborx::Str::Def(..)) => out.push((n.s, hl(n.s), 2)),
+        cborx::Kind::Text(cborx::Str::Def(..)) => out.push((n.s, hl(n.s), 3)),
+        _ => {}
+    }
 }
 
 fn collect(n: &cborx::Node, out: &mut Vec<(usize, usize)>) {
@@ -775,6 +818,7 @@ fn check_probe_batch<'a>(s: &'a Session) -> impl Fn(&ProbeBatch, &mut Obs) -> Re
             obs.class(format!("probe:{}", p.kind));
             obs.class(format!("probe-group:{}", p.target.group()));
             let family = if p.kind.starts_with("len-") { "huge-length" } else { "deep-nesting" };
+            let _ = &family;
             let fail = match r {
                 ProbeResult::Returned(ok) => {
                     obs.class(format!("probe-verdict:{}", if *ok { "ok" } else { "err" }));
@@ -939,9 +983,9 @@ pub fn run(s: &Session) {
             let f: Vec<usize> =
                 p.family(&fam).iter().copied().filter(|i| p.seeds[*i].bytes.len() <= 20_000 && p.seeds[*i].tree().is_some()).collect();
             if !f.is_empty() {
-                for k in 0..s.pick(2usize, 8) {
+                for k in 0..s.pick(2usize, 4) {
                     let i = f[(k * 7919 + 3) % f.len()];
-                    for slot in s.pick(vec![0x3000u16, 0xc000], vec![0x1000u16, 0x4000, 0x8000, 0xc000, 0xf000]) {
+                    for slot in s.pick(vec![0x3000u16, 0xc000], vec![0x2000u16, 0x8000, 0xe000]) {
                         hosts.push((p.seeds[i].name.clone(), slot));
                     }
                 }
@@ -950,8 +994,8 @@ pub fn run(s: &Session) {
         for (host, slot) in hosts {
             for kind in NEST_KINDS {
                 for d in &depths {
-                    // planted probes only at the deepest quick depth and beyond
-                    if !host.is_empty() && *d < 100_000 {
+                    // planted probes only at one depth (beyond every observed overflow threshold)
+                    if !host.is_empty() && *d != 100_000 {
                         continue;
                     }
                     probes.push(Probe { target: *t, kind: kind.into(), n: *d, host: host.clone(), slot });
@@ -960,6 +1004,21 @@ pub fn run(s: &Session) {
             for kind in LEN_KINDS {
                 for l in lens {
                     probes.push(Probe { target: *t, kind: kind.into(), n: l, host: host.clone(), slot });
+                }
+            }
+        }
+        // every definite-length head of a few seeds of the family declares 2^32 / 2^62 elements
+        if p.has_family(&fam) {
+            let f: Vec<usize> =
+                p.family(&fam).iter().copied().filter(|i| p.seeds[*i].bytes.len() <= 4_000 && p.seeds[*i].tree().is_some()).collect();
+            for k in 0..s.pick(3usize, 12).min(f.len()) {
+                let seed = &p.seeds[f[(k * 7919 + 1) % f.len()]];
+                let mut heads = vec![];
+                collect_heads(seed.tree().unwrap(), &seed.bytes, &mut heads);
+                for slot in 0..heads.len().min(s.pick(16, 64)) {
+                    for l in lens {
+                        probes.push(Probe { target: *t, kind: "len-self".into(), n: l, host: seed.name.clone(), slot: slot as u16 });
+                    }
                 }
             }
         }
